@@ -128,6 +128,7 @@ type (
 		SignedAccumulator *SignedAccumulator
 		Events            []*Event
 		product           *big.Int
+		productFrom       uint64 // index from which product was computed
 	}
 
 	// Hash represents a SHA256 hash and has marshaling methods to/from JSON.
@@ -309,16 +310,18 @@ func (update *Update) Verify(pk *gabikeys.PublicKey) (*Accumulator, error) {
 }
 
 func (update *Update) Product(from uint64) *big.Int {
-	if update.product != nil {
+	// The cached product is only valid for the start index it was computed for: one Update
+	// may be applied to several witnesses that are at different indices.
+	if update.product != nil && (update.productFrom == from || len(update.Events) == 0) {
 		return update.product
 	}
-	update.product = big.NewInt(1)
-	if len(update.Events) == 0 {
-		return update.product
+	product := big.NewInt(1)
+	if len(update.Events) != 0 {
+		for _, event := range update.Events[from-update.Events[0].Index:] {
+			product.Mul(product, event.E)
+		}
 	}
-	for _, event := range update.Events[from-update.Events[0].Index:] {
-		update.product.Mul(update.product, event.E)
-	}
+	update.product, update.productFrom = product, from
 	return update.product
 }
 
@@ -345,6 +348,7 @@ func (update *Update) Prepend(eventlist *EventList) error {
 	n.Events = append(eventlist.Events, n.Events...)
 	if eventlist.product != nil {
 		n.product.Mul(n.product, eventlist.product)
+		n.productFrom = n.Events[0].Index
 	} else {
 		n.product = nil
 	}
